@@ -699,6 +699,7 @@ type dedupCase struct {
 	Bases  []wm.Rec // up to 4 group prototypes
 	Items  []dedupItem
 	OwnMap bool `json:",omitempty"` // the caller supplies the scratch map
+	Prior  int  `json:",omitempty"` // > 0 (with OwnMap): the same scratch map has served an earlier Dedup call on this many of the prototypes
 }
 
 type dedupItem struct {
@@ -810,6 +811,18 @@ func checkDedup(c dedupCase) error {
 	if c.OwnMap {
 		scratch = map[string]dns.RR{}
 	}
+	if c.OwnMap && c.Prior > 0 {
+		// the scratch map is the caller's and is kept between calls (that is what the parameter is for):
+		// an earlier call on other records must not change the outcome of this one
+		var prior []dns.RR
+		for i := 0; i < c.Prior && i < len(c.Bases); i++ {
+			if rr, err := wm.ToLib(cloneRec(c.Bases[i])); err == nil {
+				prior = append(prior, rr)
+			}
+		}
+		dns.Dedup(prior, scratch)
+		pbt.Class("scratch-map-reused")
+	}
 	out := dns.Dedup(in, scratch)
 	if len(out) != len(order) {
 		return pbt.Errf("Dedup returned %d records for %d groups", len(out), len(order))
@@ -855,6 +868,9 @@ func genDedup(t *rapid.T) dedupCase {
 		c.Items = append(c.Items, it)
 	}
 	c.OwnMap = rapid.Bool().Draw(t, "ownmap")
+	if c.OwnMap && rapid.Bool().Draw(t, "reused") {
+		c.Prior = rapid.IntRange(1, nb).Draw(t, "prior")
+	}
 	return c
 }
 
@@ -867,6 +883,21 @@ func init() {
 		}
 		if !dns.IsDuplicate(rr, rr) || !dns.IsDuplicate(rr, dns.Copy(rr)) {
 			return pbt.Errf("%s (decoded from the wire) is not a duplicate of itself / of its copy", rr)
+		}
+		return nil
+	})
+	pbt.Probe("dedup-scratch-map-reused", func() error {
+		// fixed e2bff6a: the all-different early return left the caller's scratch map populated
+		mk := func(s string) dns.RR { rr, _ := dns.NewRR(s); return rr }
+		m := map[string]dns.RR{}
+		dns.Dedup([]dns.RR{mk("a. 300 IN A 192.0.2.1"), mk("b. 300 IN A 192.0.2.2")}, m)
+		out := dns.Dedup([]dns.RR{mk("c. 300 IN A 192.0.2.3"), mk("c. 200 IN A 192.0.2.3"), mk("c. 100 IN A 192.0.2.3"), mk("d. 300 IN A 192.0.2.4"), mk("e. 300 IN A 192.0.2.5")}, m)
+		if len(out) != 3 || out[0].Header().Ttl != 100 {
+			return pbt.Errf("Dedup with a scratch map that served an earlier (all-different) call returns %d records (want 3: c. with TTL 100, d., e.): %v", len(out), out)
+		}
+		out = dns.Dedup([]dns.RR{mk("a. 100 IN A 192.0.2.1"), mk("a. 50 IN A 192.0.2.1")}, m)
+		if len(out) != 1 || out[0].Header().Ttl != 50 {
+			return pbt.Errf("Dedup with a scratch map that served earlier calls: %v (want one record a. with TTL 50)", out)
 		}
 		return nil
 	})
